@@ -183,11 +183,13 @@ def _classify(lf, x0, y0, x1, y1, eps):
 
 def _grammar(text):
     """None or a reason.  c17.output_ok (shared minimal predicate) + the group / path rules of the README grammar."""
-    from vlib.props.c17 import output_ok
+    from vlib.props.pico_grammar import validate
 
-    why = output_ok(text)
-    if why:
-        return why
+    # the README grammar as validated for C01, except the rounding of path numbers: clip_to_viewbox takes no
+    # ndigits and the property does not ask the clipped coordinates to be rounded
+    bad = [b for b in validate(text, 3, False) if b[0] != "path-rounding"]
+    if bad:
+        return f"{bad[0][0]}: {bad[0][1]}"
     root = ET.fromstring(text)
     for el in root.iter():
         if el.tag == SVGNS + "g":
